@@ -29,6 +29,9 @@ CHECKS["C15"] = dict(level="other", design="4/C15",
 CHECKS["C17"] = dict(level="other", design="4/C17",
    text="Solver-decided total-function check: for n<=N elements with unbounded symbolic non-negative integer scores (ties and zeros included; weak orders split into one job per sorting permutation) sorted_combinations yields every non-empty combination exactly once, index-ordered, in non-decreasing key order with key = sum; min_combinations_in_interval_iter_sorted with symbolic [lo, hi) equals the brute-force set of least-sum combinations in the interval, [] when none. heapq runs on tuples with symbolic keys.",
    note="Trusted: CrossHair+z3; itertools.combinations as brute-force reference. Bounds: N=3 quick / 4 thorough; key = sum of scores.")
+CHECKS["C19"] = dict(level="other", design="4/C19",
+   text="Solver-decided total-function checks: int_2_roman/roman_2_int on the complete domain 1..3999 (symbolic n per range, digit-table reference, both directions); arg_sort permutation + order + stability incl. reverse for symbolic int lists; sub_seq/search_sub_seq window definition incl. overlaps and ValueError; compare_pos_in_iterables = multiset equality; Batcher/BatcherIter with symbolic length and batch size (slices, sizes, last batch, len, IndexError, lock-step tuples); plus a bit-precise z3 QF_BVFP lemma tying math.ceil(n / bs) on float64 to integer ceil-division for all n, bs < 2^B.",
+   note="Trusted: CrossHair+z3. Bounds: list lengths <=4/5, |s1|<=3,|s2|<=4/5, n<=7/9, bs<=8/10, fp lemma B=8 quick / 12 thorough; roman complete.")
 NOT_YET = {}
 def main():
     props = [json.loads(l)["id"] for l in open(os.path.join(ROOT, "properties.jsonl"))]
